@@ -1,10 +1,12 @@
-\* MissingObjectFinder work-set order: every pop order, 2 commits x 25 tree assignments x <= 1 tag, include-tag
+\* MissingObjectFinder work-set order (quick + thorough): every pop order, include-tag on
+\* (harness/props/c05.py writes the same configuration at run time; TransferCases uses the same constants
+\*  plus SampleMod / SampleSeed)
 SPECIFICATION Spec
 CONSTANTS
   NC = 2
-  NTP = 5
+  NTP = 4
   NT = 1
-  MaxHeads = 3
+  MaxHeads = 2
   MaxWants = 1
   Modes = {"detailed"}
   IncTag = {TRUE}
